@@ -5050,7 +5050,6 @@ class Entity(object, metaclass=EntityMeta):
                 obj._status_ = status
                 for cache_index, old_key in undo_list: cache_index[old_key] = obj
 
-            undo_funcs.append(undo_func)
             try:
                 for attr in obj._attrs_:
                     if not attr.is_collection: continue
@@ -5083,6 +5082,13 @@ class Entity(object, metaclass=EntityMeta):
                             if val is None: continue
                             reverse.reverse_remove((val,), obj, undo_funcs)
                         else: throw(NotImplementedError)
+
+                # the calls above may have modified the object itself (a relationship cycle): undo_func restores the state
+                # the object has now, and runs before the undo functions of those calls
+                status = obj._status_
+                if status in del_statuses: return
+                save_pos = obj._save_pos_
+                undo_funcs.append(undo_func)
 
                 cache_indexes = cache.indexes
                 for attr in obj._simple_keys_:
